@@ -350,6 +350,15 @@ def run_kani_harness(h, src, target_dir, logdir, playback=False):
     elif r["compile_error"] and not (r["successful"] or r["failed"]):
         r["verdict"] = "error"
         r["why"] = "harness does not compile against the current tree"
+    elif r["successful"] and rc == 0 and h.expect_cover == "none":
+        # should_panic harness: success = the call panicked; the cover after the call must be unreachable
+        if r["covers"] >= 1 and r["covers_sat"] == 0:
+            r["verdict"] = "pass"
+            r["why"] = ""
+        else:
+            r["verdict"] = "fail"
+            r["why"] = "a value was returned where the call must not return (cover after the call is reachable)"
+            r["failed_checks"] = [{"desc": "MUST-BE-UNREACHABLE cover satisfied", "loc": h.name}]
     elif r["successful"] and rc == 0:
         if h.expect_cover and (r["covers"] == 0 or r["covers_sat"] < r["covers"]):
             r["verdict"] = "error"
